@@ -151,7 +151,7 @@ Definition run_op (d : decl) (op : sexp) : string :=
           | SVUnknown => "unknown"
           end
       | _ =>
-          match arb_float_decide d with
+          match arb_float_decide_ext d with
           | AVTotal => "total"
           | AVPanicsOn bs => "panics " ++ pr_list "b" (map string_of_Z bs)
           | AVUnknown => "unknown"
